@@ -6,6 +6,7 @@ From Coq Require Import NArith List Bool PeanoNat.
 From V9 Require Shape.ShapeLib Shape.POrder Shape.PFlush.
 From V9 Require Race.Facts Shape.PLocks.
 From V9 Require Import Lib.GoSem Gen.Consts Srv.Conc Srv.ConcProofs.
+From V9 Require Import Srv.ConcFlushChain.
 Import ListNotations.
 
 (* if both the flushed request's reply and the Rflush are sent, the reply is first *)
@@ -53,6 +54,25 @@ Theorem C07_flush_answered_once_corrected : forall c s f qf old,
   on_wire s f = 1.
 Proof. exact flush_answered_once_corrected. Qed.
 Print Assumptions C07_flush_answered_once_corrected.
+
+(* the same for a Tflush whose target is itself a Tflush, to any depth: answered exactly once, provided the chain of
+   targets is finite (ends in a request that is not a Tflush, or in no target). Only the cycles are excluded, and the
+   recorded counterexample (a Tflush naming itself) is exactly such a cycle *)
+Theorem C07_flush_chain_answered_once : forall c s f qf old,
+  reach c s -> quiescent c s -> closed s = false -> NoGroups s -> all_answered s ->
+  getq s f = Some qf -> q_kind qf = KFlush old -> q_flush qf = false ->
+  wf_target s f -> on_wire s f = 1.
+Proof. exact flush_chain_answered_once. Qed.
+Print Assumptions C07_flush_chain_answered_once.
+
+Theorem C07_finite_target_chains_are_the_acyclic_ones : forall s f,
+  wf_target s f -> ~ Relation_Operators.clos_trans nat (tflush s) f f.
+Proof. exact wf_target_acyclic. Qed.
+Print Assumptions C07_finite_target_chains_are_the_acyclic_ones.
+
+Theorem C07_the_counterexample_is_a_cycle : ~ wf_target cex_st 0.
+Proof. exact counterexample_not_wf_target. Qed.
+Print Assumptions C07_the_counterexample_is_a_cycle.
 
 (* the full statement without the hypothesis on the target is FALSE of the faithful model and of the code: a Tflush naming its own tag waits for itself (recorded as known finding flush-cycle) *)
 Theorem C07_flush_answered_once_counterexample :
